@@ -6,4 +6,4 @@ export GOFLAGS=-mod=mod GOPROXY=off GOSUMDB=off GOTOOLCHAIN=local CGO_ENABLED=0
 mkdir -p bin evidence replays
 (cd extract && go build -o ../bin/extract .)
 python3 tools/mkgomod.py /repo
-python3 tools/setup_all.py
+flock "$(pwd)/.lean.lock" python3 tools/setup_all.py
